@@ -72,6 +72,7 @@ def run(case):
     def f():
         tg = iogen.build_tg(case["g"], tof)
         out = {}
+        before = c01._snap(tg)
         for fmt in FORMATS:
             try:
                 out[fmt] = {"text": textgrid_io.getTextgridAsStr(_tgToDictionary(tg), fmt, case["blanks"],
@@ -79,6 +80,21 @@ def run(case):
                                                                  None if case["mx"] is None else tof(case["mx"]), case["thr"])}
             except Exception as e:  # noqa
                 out[fmt] = {"err": core.err_kind(e)}
+        # the same object written again after a save with the other blank-filling setting: same text, object untouched
+        hist = []
+        try:
+            mn = None if case["mn"] is None else tof(case["mn"])
+            mx = None if case["mx"] is None else tof(case["mx"])
+            textgrid_io.getTextgridAsStr(_tgToDictionary(tg), "short_textgrid", not case["blanks"], None, None, None)
+            again = textgrid_io.getTextgridAsStr(_tgToDictionary(tg), "short_textgrid", case["blanks"], mn, mx, case["thr"])
+            if "text" in out["short_textgrid"] and again != out["short_textgrid"]["text"]:
+                hist.append("writing the same textgrid a second time gives a different short_textgrid text")
+        except Exception as e:  # noqa
+            if "text" in out["short_textgrid"]:
+                hist.append("writing the same textgrid a second time raised %s" % type(e).__name__)
+        if c01._snap(tg) != before:
+            hist.append("getTextgridAsStr/_tgToDictionary changed the textgrid")
+        out["history"] = hist
         return out
     return core.run_guarded(f)
 
@@ -134,7 +150,10 @@ def _partition_problems(content, fmt):
 def py_checks(case, r):
     if "ok" not in r:
         return ["save raised %s" % r.get("exc", r)]
-    outs = r["ok"]
+    outs = dict(r["ok"])
+    hist = outs.pop("history", [])
+    if hist:
+        return hist
     kinds = set("err:" + v["err"] if "err" in v else "ok" for v in outs.values())
     if len(kinds) != 1:
         return ["the four formats disagree on success/failure: %r" % {k: v.get("err", "ok") for k, v in outs.items()}]
